@@ -6,7 +6,9 @@ set -u
 cd "$(dirname "$0")/.."
 PATCH="$1"; shift
 git -C /repo apply "$PATCH" || { echo "patch does not apply"; exit 2; }
-trap 'git -C /repo checkout -- . ; echo "[/repo restored]"' EXIT
+# the evidence files describe runs against /repo itself: keep them out of runs against a patched tree
+EVBAK=$(mktemp -d /tmp/evbak.XXXXXX); cp -a evidence/. "$EVBAK"/
+trap 'git -C /repo checkout -- . ; rm -rf evidence; mkdir evidence; cp -a "$EVBAK"/. evidence/; rm -rf "$EVBAK"; echo "[/repo restored]"' EXIT
 if [ $# -eq 0 ]; then set -- C01 C02 C03 C04 C05 C06 C07 C08 C09 C10 C11 C12 C13 C14 C15 C16 C17 C18 C19 C20; fi
 for p in "$@"; do
   out=$(./check "$p" --tier quick 2>&1)
